@@ -1,5 +1,7 @@
 import Proofs.DepGraph
 import Proofs.DepGraphMerge
+import Proofs.DepGraphTopo
+import Proofs.DepGraphTopoComplete
 /-!
 # C16 — the dependency graph mirrors a plain node/edge set under any edit history
 
@@ -10,10 +12,12 @@ Tier 1 (proved here, for every history): the RList index invariant is preserved 
 (`rlist_*_inv`), `get_index` is correct (`rlist_getIndex_spec`), and the four editing operations refine the
 spec (`addNode_refines`, `addDep_refines`, `removeDep_refines`, `removeNode_refines`), hence every history does
 (`history_refines`), with `dependencies` read through the abstraction (`dependencies_spec`).
-`merge`, `copy`, `invert`, `graft`, `flatten`, `topological_sort`, `transitive_reduction/closure` are in the
-executable model and tied to the code by the correspondence; their theorems are not proved yet
-(`history_refines` is therefore the `…_partial` form of the property's first sentence: histories of
-add/remove node/edge).  `c16_pinned_refuted` keeps the pinned `graft` (A19) refuted.
+`merge`, `copy` and `+` refine the spec too (`multi_history_refines`: histories over any number of graph variables),
+and the topological sort is proved sound and total on every such graph (`topo_history`: returns exactly on acyclic
+graphs, every node once after all its dependencies, `cyclic` otherwise).
+`invert`, `graft`, `flatten`, `transitive_reduction/closure` are in the executable model and tied to the code by the
+correspondence; their theorems are not proved yet (`multi_history_refines` is therefore the `…_partial` form of the
+property's first sentence: histories without inversions and grafts).  `c16_pinned_refuted` keeps the pinned `graft` (A19) refuted.
 -/
 namespace DG
 
@@ -230,6 +234,48 @@ theorem multi_history_refines (ops : List MOp) :
     | nil => intro st sp h; exact h
     | cons op rest ih => intro st sp h; exact ih _ _ (mstep_refines h op)
   exact gen ops _ _ base
+
+/-! ### Topological sort (second sentence)
+
+For every graph reachable by a history over any number of graph variables (`multi_history_refines`): the sort returns
+exactly when the mathematical graph is acyclic; what it returns lists every node once, each after all its dependencies;
+on a cycle it fails with `cyclic` and with nothing else (the model's recursion budget `size + 1` is never exhausted). -/
+
+def Spec.Cyclic (s : Spec) : Prop := ∃ x, Relation.TransGen s.E x x
+
+theorem cyclic_iff {g : G} {s : Spec} (h : Refines g s) : g.Cyclic ↔ s.Cyclic := by
+  have : g.Edge = s.E := by funext u w; exact propext (h.2.2 u w)
+  unfold G.Cyclic Spec.Cyclic
+  rw [this]
+
+/-- what a returned sort satisfies -/
+theorem topo_sound {g : G} {s : Spec} (h : Refines g s) {l : List Nat} (hs : g.topologicalSort = .ok l) :
+    l.Nodup ∧ (∀ x, x ∈ l ↔ s.N x) ∧ ∀ x y, s.E x y → Before l y x := by
+  obtain ⟨hnd, hn, he⟩ := topologicalSort_sound h.1 hs
+  exact ⟨hnd, fun x => (hn x).trans (h.2.1 x), fun x y hxy => he x y ((h.2.2 x y).2 hxy)⟩
+
+/-- acyclic: the sort returns -/
+theorem topo_acyclic {g : G} {s : Spec} (h : Refines g s) (hac : ¬ s.Cyclic) : ∃ l, g.topologicalSort = .ok l :=
+  topologicalSort_acyclic h.1 (fun hc => hac ((cyclic_iff h).1 hc))
+
+/-- cyclic: the sort raises the cycle error -/
+theorem topo_cyclic {g : G} {s : Spec} (h : Refines g s) (hc : s.Cyclic) : g.topologicalSort = .error .cyclic :=
+  topologicalSort_cyclic h.1 ((cyclic_iff h).2 hc)
+
+/-- the three together, on the graphs of any multi-graph edit history -/
+theorem topo_history (ops : List MOp) (i : Nat) :
+    let g := ops.foldl mstep (fun _ => G.empty) i
+    let s := ops.foldl mspecStep (fun _ => Spec.empty) i
+    (¬ s.Cyclic → ∃ l, g.topologicalSort = .ok l) ∧ (s.Cyclic → g.topologicalSort = .error .cyclic) ∧
+    ∀ l, g.topologicalSort = .ok l → l.Nodup ∧ (∀ x, x ∈ l ↔ s.N x) ∧ ∀ x y, s.E x y → Before l y x := by
+  intro g s
+  have h := multi_history_refines ops i
+  exact ⟨topo_acyclic h, topo_cyclic h, fun l hl => topo_sound h hl⟩
+
+-- evaluated tests (compiled code, not kernel proofs: the mutual recursion is by well-founded recursion)
+#guard decide ((run G.empty [.addDep 1 2, .addDep 2 3, .addDep 4 3, .removeNode 2, .addDep 3 1]).topologicalSort
+    = .ok [1, 3, 4])
+#guard decide ((run G.empty [.addDep 1 2, .addDep 2 3, .addDep 3 1]).topologicalSort = .error .cyclic)
 
 /-! ### Queries read through the abstraction -/
 
